@@ -265,11 +265,30 @@ fn attached(g: &'static GOps) -> bool {
     util::catch(|| (g.is_attached)()).unwrap_or(true)
 }
 
+/// panics raised by anything but the harness's own unwinding marker (counted by the panic hook)
+static FOREIGN_PANICS: std::sync::atomic::AtomicU64 = std::sync::atomic::AtomicU64::new(0);
+static PANICS_AT_START: std::sync::atomic::AtomicU64 = std::sync::atomic::AtomicU64::new(0);
+fn behaviour_starts() {
+    PANICS_AT_START.store(FOREIGN_PANICS.load(std::sync::atomic::Ordering::SeqCst), std::sync::atomic::Ordering::SeqCst);
+}
+fn counting_panic_hook() {
+    std::panic::set_hook(Box::new(|info| {
+        let own = info.payload().downcast_ref::<&str>().map(|s| *s == UNWIND_MARK).unwrap_or(false);
+        if !own {
+            FOREIGN_PANICS.fetch_add(1, std::sync::atomic::Ordering::SeqCst);
+        }
+    }));
+}
+
 const UNWIND_MARK: &str = "harness: unwinding through a scope that holds a guard / an attach handle";
 
 /// Drop `x` normally or by a panic unwinding through the scope that holds it (the panic is the
 /// harness's own and is caught here); Err = the drop itself panicked.
 fn drop_it<T>(x: T, unwind: bool) -> Result<(), String> {
+    // Once the code under test has panicked in this behaviour (e.g. a second attach), one of its locks
+    // may be poisoned; a drop that panics WHILE the thread is unwinding aborts the process, which would be
+    // a crash of the tooling and not data. From then on drops are made normally (their panic is caught).
+    let unwind = unwind && FOREIGN_PANICS.load(std::sync::atomic::Ordering::SeqCst) == PANICS_AT_START.load(std::sync::atomic::Ordering::SeqCst);
     if !unwind {
         return util::catch(|| drop(x));
     }
@@ -498,6 +517,7 @@ fn do_append(g: &'static GOps, kind: &str, id: u64) -> (String, bool) {
 }
 
 fn replay_one(lane: &mut Lane, b: &Value, seed: u64) -> Value {
+    behaviour_starts();
     let id = b["id"].as_u64().unwrap_or(0);
     let mut rng = util::rng(seed ^ id.wrapping_mul(0x9E37_79B9_7F4A_7C15));
     // a fresh (detached) global
@@ -901,7 +921,7 @@ fn replay_one(lane: &mut Lane, b: &Value, seed: u64) -> Value {
 }
 
 fn cmd_replay(a: &HashMap<String, String>) {
-    std::panic::set_hook(Box::new(|_| {}));
+    counting_panic_hook();
     let beh = util::read_ndjson(util::arg_str(a, "behaviours", ""));
     let seed = util::arg_u64(a, "seed", 1);
     let mut out = std::io::BufWriter::new(std::fs::File::create(util::arg_str(a, "out", "")).unwrap());
@@ -1014,6 +1034,7 @@ fn install_lookup_perturbation() {
 }
 
 fn run_race(sc: &Race, type_idx: &mut usize) {
+    behaviour_starts();
     let g: &'static GOps = loop {
         let g = &GLOBALS[*type_idx % GLOBALS.len()];
         if !attached(g) {
@@ -1142,7 +1163,7 @@ fn annotate(evs: &mut [Value]) {
 }
 
 fn cmd_race(a: &HashMap<String, String>) {
-    std::panic::set_hook(Box::new(|_| {}));
+    counting_panic_hook();
     install_lookup_perturbation();
     let scen = util::read_ndjson(util::arg_str(a, "scenarios", ""));
     let mut out = std::io::BufWriter::new(std::fs::File::create(util::arg_str(a, "out", "")).unwrap());
